@@ -5,7 +5,7 @@ import { Reporter, TIER, SEED, sliceBySeed, valueKind, sha } from "./common.mjs"
 import { sweepPrograms, runtimeClasses } from "./sweep.mjs";
 import { f1Depth1, f1Depth2, f1Overlap, f3, f4, packPrograms, packInline, skeleton, render, renderProgram } from "./spec.mjs";
 import { f2 } from "./spec2.mjs";
-import { member, IN, OUT, DC, vname } from "./ref.mjs";
+import { member, IN, OUT, DC, vname, defectModels } from "./ref.mjs";
 import { normaliseProgram } from "./normalise.mjs";
 import { universeFor, build, toSrc, pool as valuePool } from "./universe.mjs";
 import { CompilePool } from "./compile.mjs";
@@ -79,12 +79,19 @@ export async function run() {
           }
           if (b !== (r === IN)) {
             const vs = toSrc(vx);
-            const key = `C01 ${skeleton(spec0, refProg)} : beff=${b} ref=${vname(r)}`;
+            let key = `C01 ${skeleton(spec0, refProg)} : beff=${b} ref=${vname(r)}`;
+            if (b === false && r === IN) {
+              // explained by the known defect "a ${number} hole takes no sign"? (model of the defect on this very case)
+              defectModels.unsignedNumberHoles = true;
+              const r2 = member(nprog.refProg, spec, build(vx));
+              defectModels.unsignedNumberHoles = false;
+              if (r2 === OUT) key = "C01 a `${number}` hole of a template literal rejects a leading minus sign : beff=false ref=IN";
+            }
             rep.violation(
               key,
               `validator of \`${render(spec0)}\` on ${vs}: beff=${b}, reference=${vname(r)}`,
               { engine: "E-src", program: text, parser: name, type: render(spec0), value: vs, beff: b, reference: vname(r) },
-              { valueSrc: vs, valueKind: valueKind(v) },
+              key.startsWith("C01 a `${number}` hole") ? { caseId: skeleton(spec0, refProg) } : { valueSrc: vs, valueKind: valueKind(v), caseId: skeleton(spec0, refProg) },
             );
           } else if (samples.length < 4 && i % 97 === 5) {
             samples.push({ type: render(spec0), value: toSrc(vx), beff: b, reference: vname(r) });
